@@ -29,6 +29,7 @@ type vodSeg struct {
 type kindData struct {
 	ext       string
 	init      []byte
+	trex      *mp4.TrexBox
 	timescale uint32
 	segs      []vodSeg
 	cycle     uint64
@@ -82,7 +83,8 @@ func loadKind(dir, ext string) (*kindData, error) {
 		return nil, fmt.Errorf("%s/init.mp4: unexpected structure", dir)
 	}
 	k.timescale = f.Init.Moov.Trak.Mdia.Mdhd.Timescale
-	trexDur := f.Init.Moov.Mvex.Trex.DefaultSampleDuration
+	k.trex = f.Init.Moov.Mvex.Trex
+	trexDur := k.trex.DefaultSampleDuration
 	for i := 1; ; i++ {
 		p := filepath.Join(dir, fmt.Sprintf("%d.m4s", i))
 		raw, err := os.ReadFile(p)
@@ -192,7 +194,13 @@ func (l *segLib) masterDur() int             { return int(l.kinds["V"].segs[0].d
 
 func (l *segLib) initSeg(track string) []byte { return l.kinds[kindOf(track)].init }
 
-func (l *segLib) media(track string, n int) *builtSeg {
+// media returns the segment of a track for number n split into nfrag fragments (CMAF chunks).  nfrag = 1 is the
+// VoD segment itself, re-stamped by binary patch; nfrag > 1 distributes its samples over nfrag moof/mdat pairs
+// (same samples, same total duration, tfdt of fragment j = dts + durations of the samples before it).
+func (l *segLib) media(track string, n, nfrag int) *builtSeg {
+	if nfrag > 1 {
+		return l.mediaFrags(track, n, nfrag)
+	}
 	key := fmt.Sprintf("%s/%d", track, n)
 	if b, ok := l.cache[key]; ok {
 		return b
@@ -214,4 +222,188 @@ func (l *segLib) media(track string, n int) *builtSeg {
 	b := &builtSeg{data: data, dts: int64(dts), dur: int64(vs.dur), h: digest(data)}
 	l.cache[key] = b
 	return b
+}
+
+func (l *segLib) mediaFrags(track string, n, nfrag int) *builtSeg {
+	key := fmt.Sprintf("%s/%d/%d", track, n, nfrag)
+	if b, ok := l.cache[key]; ok {
+		return b
+	}
+	one := l.media(track, n, 1)
+	k := l.kinds[kindOf(track)]
+	f, err := mp4.DecodeFile(bytes.NewReader(one.data))
+	if err != nil {
+		panic(fmt.Sprintf("seglib: decode own segment: %v", err))
+	}
+	seg := f.Segments[0]
+	frag := seg.Fragments[0]
+	samples, err := frag.GetFullSamples(k.trex)
+	if err != nil || len(samples) < nfrag {
+		panic(fmt.Sprintf("seglib: samples of %s: %v (%d)", key, err, len(samples)))
+	}
+	trackID := frag.Moof.Traf.Tfhd.TrackID
+	var out bytes.Buffer
+	if seg.Styp != nil {
+		if err := seg.Styp.Encode(&out); err != nil {
+			panic(err)
+		}
+	}
+	var total int64
+	for j := 0; j < nfrag; j++ {
+		lo, hi := j*len(samples)/nfrag, (j+1)*len(samples)/nfrag
+		nf, err := mp4.CreateFragment(uint32(n), trackID)
+		if err != nil {
+			panic(err)
+		}
+		for _, sm := range samples[lo:hi] {
+			sm.DecodeTime = uint64(one.dts + total) // own arithmetic: start + durations so far
+			nf.AddFullSample(sm)
+			total += int64(sm.Dur)
+		}
+		if err := nf.Encode(&out); err != nil {
+			panic(err)
+		}
+	}
+	if total != one.dur {
+		panic(fmt.Sprintf("seglib: %s: fragment durations %d != %d", key, total, one.dur))
+	}
+	data := out.Bytes()
+	b := &builtSeg{data: data, dts: one.dts, dur: one.dur, h: digest(data)}
+	l.cache[key] = b
+	return b
+}
+
+type boxSpan struct {
+	typ        string
+	start, end int
+}
+
+func topBoxes(data []byte) []boxSpan {
+	var res []boxSpan
+	pos := 0
+	for pos+8 <= len(data) {
+		sz := int(binary.BigEndian.Uint32(data[pos : pos+4]))
+		if sz < 8 || pos+sz > len(data) {
+			break
+		}
+		res = append(res, boxSpan{string(data[pos+4 : pos+8]), pos, pos + sz})
+		pos += sz
+	}
+	return res
+}
+
+// cutPoints lists where an upload of this body can break.  early: before the first fragment is complete; late: after
+// at least one complete fragment (which the receiver has then already taken).
+//
+//	clean  - the body simply ends there (Content-Length = its length): only points INSIDE a moof box (or inside a box
+//	         before the first moof).  A body that ends inside / right before an mdat is not in the alphabet: the
+//	         receiver cannot tell it from a complete upload without comparing box sizes, answers 200 and keeps the
+//	         declared duration - the property text does not say which duration such a segment has.  A body that ends
+//	         exactly at a fragment boundary is a complete segment of fewer fragments.
+//	broken - the connection breaks there (Content-Length of the whole segment, the reader fails with
+//	         io.ErrUnexpectedEOF): every point, including the fragment boundaries.
+type cuts struct{ cleanEarly, cleanLate, brokenEarly, brokenLate []int }
+
+func cutPoints(data []byte) cuts {
+	var c cuts
+	done := 0 // complete fragments before the current box
+	for _, b := range topBoxes(data) {
+		mid := b.start + (b.end-b.start)/2
+		var clean, broken []int
+		switch b.typ {
+		case "moof":
+			clean = []int{b.start + 4, mid, b.end - 1}
+			broken = []int{b.start, b.start + 4, mid, b.end}
+		case "mdat":
+			broken = []int{b.start + 8, mid, b.end - 1}
+		default:
+			clean = []int{mid}
+			broken = []int{mid}
+		}
+		add := func(dst *[]int, pts []int) {
+			for _, p := range pts {
+				if p > 0 && p < len(data) {
+					*dst = append(*dst, p)
+				}
+			}
+		}
+		if done == 0 {
+			add(&c.cleanEarly, clean)
+			add(&c.brokenEarly, broken)
+		} else {
+			add(&c.cleanLate, clean)
+			add(&c.brokenLate, broken)
+		}
+		if b.typ == "mdat" {
+			done++
+		}
+	}
+	return c
+}
+
+type decoded struct {
+	ok       bool
+	dts, dur int64
+	frags    int
+}
+
+// decodeStored is the driver's own reading of a stored media file: decode time of the first fragment and the sum
+// of the sample durations of all fragments (trun duration, else tfhd default, else trex default).
+func (l *segLib) decodeStored(track string, data []byte, cache map[string]decoded, h string) (d decoded) {
+	key := track[:1] + h
+	if c, ok := cache[key]; ok {
+		return c
+	}
+	defer func() {
+		if r := recover(); r != nil {
+			d = decoded{}
+		}
+		cache[key] = d
+	}()
+	k := l.kinds[kindOf(track)]
+	boxes := topBoxes(data)
+	covered := 0
+	if len(boxes) > 0 {
+		covered = boxes[len(boxes)-1].end
+	}
+	f, err := mp4.DecodeFile(bytes.NewReader(data))
+	if err != nil || covered != len(data) || len(f.Segments) == 0 {
+		return d
+	}
+	first := true
+	for _, sg := range f.Segments {
+		for _, fr := range sg.Fragments {
+			if fr.Moof == nil || fr.Moof.Traf == nil || fr.Moof.Traf.Tfdt == nil || fr.Mdat == nil {
+				return d
+			}
+			traf := fr.Moof.Traf
+			if first {
+				d.dts = clamp64(traf.Tfdt.BaseMediaDecodeTime())
+				first = false
+			}
+			def := k.trex.DefaultSampleDuration
+			if traf.Tfhd.HasDefaultSampleDuration() {
+				def = traf.Tfhd.DefaultSampleDuration
+			}
+			for _, trun := range traf.Truns {
+				for _, sm := range trun.Samples {
+					if trun.HasSampleDuration() {
+						d.dur += int64(sm.Dur)
+					} else {
+						d.dur += int64(def)
+					}
+				}
+			}
+			d.frags++
+		}
+	}
+	d.ok = d.frags > 0 && d.dur < 1<<30
+	return d
+}
+
+func clamp64(v uint64) int64 {
+	if v >= 1<<30 {
+		return 1<<30 - 1
+	}
+	return int64(v)
 }
